@@ -14,15 +14,31 @@ Hypothesis Ch0 : @Char0 F OF.
 Add Field TieField : Fth.
 
 (* scalar leaves: numerals written differently in source and model *)
+(* numerals are non-zero in characteristic 0, in the normal form field asks for *)
+Lemma nz2 : o1 +! o1 <> (o0 : F).
+Proof. intro H. apply (Ch0 2%positive). cbn [of_pos]. unfold o2. rewrite H. ring. Qed.
+Lemma nz3 : o1 +! (o1 +! o1) <> (o0 : F).
+Proof. intro H. apply (Ch0 3%positive). cbn [of_pos]. unfold o2. rewrite <- H. ring. Qed.
+
+Ltac nz := repeat (apply (mul_nz Fth)); first [ assumption | exact nz2 | exact nz3 ].
+
 Ltac leaf :=
   try reflexivity;
   unfold o3, o4, o6, o24, of_Q, of_Z; cbn [Qnum Qden of_pos]; unfold o2;
   try ring;
-  try (field; repeat split; try assumption;
-       try (apply (Ch0 2%positive)); try (apply (Ch0 4%positive)); try (apply (Ch0 6%positive));
-       try (apply (Ch0 24%positive))).
+  try (field; repeat split; nz).
 
-Ltac same := repeat (first [reflexivity | progress f_equal]); leaf.
+(* descend through identical vector / list / record structure; a goal between scalars is a field identity *)
+Ltac same :=
+  repeat match goal with
+  | |- ?a = ?a => reflexivity
+  | |- @eq F _ _ => first [ solve [leaf] | progress f_equal ]   (* e.g. a / DT = b / DT without DT <> 0: compare a and b *)
+  | |- @eq (list F) _ _ => progress f_equal
+  | |- @eq (list (list F)) _ _ => progress f_equal
+  | |- @eq (step_result F) _ _ => progress f_equal
+  | |- @eq (ds_state F) _ _ => progress f_equal
+  | |- @eq (list (list (list F))) _ _ => progress f_equal
+  end.
 
 Lemma tie_intg_rk (f : sysfun F) (X : list F) (t0 DT DTc : F) :
   gen_intg_rk f X t0 DT DTc = intg_rk f X t0 DT DTc.
